@@ -64,6 +64,14 @@ CHECKS["C14"] = dict(
     note="trusted: renderer, timestamp split and date-time text projection, TLC; '<time> as unix' only under a UTC default zone; 'date at N' is not used",
     ref="7 C14")
 
+CHECKS["C13"] = dict(
+    technique="TLA+ spec (Radix.tla, integers as bit sequences) model-checked by TLC; TLC-enumerated literal / conversion lines replayed into the code; random traces validated by TLC (Trace.tla)",
+    text="TLC model-checks on Radix.tla that reading the printed literal gives the integer back in bases 2, 8, 10, 16 for all n < 2^12 and 2^k - 1, 2^k, 2^k + 1 (k <= 53), with decimal anchors; "
+         "enumerates such integers as literals in each base, in sums with a decimal and converted from 4 source bases to 4 targets (decimal sources also with .25 / .75) with expected value "
+         "(bit-exact) and printed digits; replayed with prefix / digit case, leading zero, keyword and synonym variants; random integers below 2^53 are executed and validated by TLC.",
+    note="trusted: renderer, integer -> bits and printed-literal projection, TLC; exact halves are not used; hex literals the money tokenizer claims are a listed known finding",
+    ref="7 C13")
+
 NOT_YET = {
 }
 
